@@ -23,8 +23,18 @@ func UnlockSnapshot() {
 	snapshotM.Unlock()
 }
 
+// Set raises the counter to s, it never lowers it.
 func Set(s Seq) {
-	atomic.CompareAndSwapUint64(&seq, 0, uint64(s))
+	for {
+		cur := atomic.LoadUint64(&seq)
+		if cur >= uint64(s) {
+			return
+		}
+
+		if atomic.CompareAndSwapUint64(&seq, cur, uint64(s)) {
+			return
+		}
+	}
 }
 
 func Next() Seq {
